@@ -41,7 +41,8 @@ def run_case(case):
     import dendropy
     rng = random.Random(case["seed"])
     ns, taxa = build.make_namespace(dendropy, max(1, case["nleaves"]))
-    tree = build.build_tree(dendropy, case["nested"], ns, taxa, rooted=True)
+    # the rooting flag must not matter to any traversal (-1/None, 0/False, 1/True)
+    tree = build.build_tree(dendropy, case["nested"], ns, taxa, rooted={1: True, 0: False, -1: None}[case.get("rooted", 1)])
     # history before the traversals (hidden state such as cached bipartitions must not matter)
     hist = case.get("history", "")
     if hist:
@@ -209,8 +210,10 @@ def run(ctx):
     for k, st in enumerate(states):
         par = st["g"]["par"]
         nl = build.num_leaves([p - 1 for p in par])
-        cases.append({"kind": "model", "seed": ctx.seed * 7919 + k, "nleaves": nl,
-                      "nested": build.nested_from_parents(par, list(range(nl))), "all_starts": True})
+        # all three rooting states for trees up to 5 nodes, rotating beyond
+        for rooted in ((1, 0, -1) if len(par) <= 5 else ((1, 0, -1)[k % 3],)):
+            cases.append({"kind": "model", "seed": ctx.seed * 7919 + k, "nleaves": nl, "rooted": rooted,
+                          "nested": build.nested_from_parents(par, list(range(nl))), "all_starts": rooted == 1 or len(par) > 5})
     nmodel = len(cases)
     # the same domain again after a history: encode bipartitions, then edit without updating them
     hcases = []
@@ -218,6 +221,7 @@ def run(ctx):
         for h in (("encode",), ("encode", "grow"), ("encode", "shrink"), ("shared", "encode", "grow")):
             if not ctx.quick or (k + len(h)) % 2 == 0:
                 hc = dict(c, kind="model+history", history="+".join(h), all_starts=False, filters=["none", "mixed"],
+                          rooted=(1, 0, -1)[(k + len(h)) % 3],
                           seed=c["seed"] * 31 + len(hcases))
                 hcases.append(hc)
     cases += hcases
@@ -226,7 +230,7 @@ def run(ctx):
     for k in range(nrand):
         nl = rng.randint(5, 14)
         nested = build.assign(build.random_parents(rng, nl, p_poly=0.3, p_unif=0.15), rng, list(range(nl)), label_internal=True)
-        cases.append({"kind": "random", "seed": ctx.seed * 7919 + 100000 + k, "nleaves": nl, "nested": nested,
+        cases.append({"kind": "random", "seed": ctx.seed * 7919 + 100000 + k, "nleaves": nl, "nested": nested, "rooted": (1, 0, -1)[k % 3],
                       "all_starts": False, "filters": ["none", "mixed", "subset"]})
     driven = ctx.drive(cases, run_case)
     ctx.judge("Trace_Traversal", driven, batch=3000)
